@@ -412,7 +412,7 @@ func fingerprints(ps []snet.Path) []string {
 	return fs
 }
 
-var recRound = ev.New("c15/multipath-rounds", "rapid state machine over rounds of the real MeasureClockOffsetSCION on loopback: 1..5 real SCIONClients (interleaved mode on/off, counting filters), 0..8 offered paths per round (subset / superset / permutation of the previous round's, withdrawals) whose next hops are distinct harness sockets that answer as SCION time servers with per-path clock offsets >= 2 s apart; per-path faults: no answer, an immediate refusal (reply with leap indicator 3, so that a failed measurement completes before the successful ones), or a proper answer to the first request of the round and refusals of the follow-ups (the path still contributes its value); crypto/rand scripted with rapid-drawn words. Oracle per round: the offered list holds the same paths after the call (callers offer it again); no path => error and no request; otherwise the number of next hops that saw a request equals min(clients, paths) and no hop serves two clients; a client in interleaved mode whose previous path is still offered sends an interleaved-form request to exactly that path's next hop, a client whose previous path was withdrawn sends a basic request and its filter was reset; the returned offset is the fault-tolerant midpoint of the offsets of the paths that answered (450 ms tolerance; per-path offsets are >= 2 s apart) and an error is returned when none answered. One evaluation = one round. Non-trivial: round with >= 1 sticky client and >= 1 withdrawn path, or more clients than paths > 0; distinct by round-log hash")
+var recRound = ev.New("c15/multipath-rounds", "rapid state machine over rounds of the real MeasureClockOffsetSCION on loopback: 1..5 real SCIONClients (interleaved mode on/off, counting filters), 0..8 offered paths per round (subset / superset / permutation of the previous round's, withdrawals) whose next hops are distinct harness sockets that answer as SCION time servers with per-path clock offsets >= 2 s apart; per-path faults: no answer, an immediate refusal (reply with leap indicator 3, so that a failed measurement completes before the successful ones), or a proper answer to the first request of the round and refusals of the follow-ups (the path still contributes its value); crypto/rand scripted with rapid-drawn words. Oracle per round: the offered list holds the same paths after the call (callers offer it again); no path => error and no request, and every client that was in interleaved mode is reset with its filter; otherwise the number of next hops that saw a request equals min(clients, paths) and no hop serves two clients; a client in interleaved mode whose previous path is still offered sends an interleaved-form request to exactly that path's next hop, a client whose previous path was withdrawn sends a basic request and its filter was reset; the returned offset is the fault-tolerant midpoint of the offsets of the paths that answered (450 ms tolerance; per-path offsets are >= 2 s apart) and an error is returned when none answered. One evaluation = one round. Non-trivial: round with >= 1 sticky client and >= 1 withdrawn path, or more clients than paths > 0, or no path offered to >= 1 client in interleaved mode; distinct by round-log hash")
 
 func TestPropMultipathRounds(t *testing.T) {
 	vt.Check(t, 300, 1500, func(t *rapid.T) {
@@ -462,7 +462,7 @@ func TestPropMultipathRounds(t *testing.T) {
 					}
 				}
 			case "none":
-				if rapid.IntRange(0, 5).Draw(t, "really-none") == 4 {
+				if rapid.IntRange(0, 1).Draw(t, "really-none") == 1 {
 					offered = nil
 				}
 			}
@@ -563,7 +563,22 @@ func TestPropMultipathRounds(t *testing.T) {
 				if err == nil || len(used) != 0 {
 					t.Fatalf("no path offered: err=%v, %d next hops saw requests", err, len(used))
 				}
-				recRound.Eval(false, 0, nil, "no-path")
+				// every client's previous path is "no longer offered": interleaved clients are reset with their filters
+				nReset := 0
+				for i, c := range cs {
+					if !exps[i].wasInterleaved {
+						continue
+					}
+					nReset++
+					if c.InInterleavedMode() || fs[i].resets == exps[i].resets {
+						t.Fatalf("round %d offered no path: client %d was in interleaved mode before it; afterwards in interleaved mode = %v, filter resets %d -> %d (its path is not offered any more: client and filter are to be reset; log %v)", round, i, c.InInterleavedMode(), exps[i].resets, fs[i].resets, log)
+					}
+				}
+				if nReset > 0 {
+					recRound.Eval(true, ev.Hash("no-path", round, nReset, fmt.Sprint(log)), nil, "no-path", "no-path-with-interleaved-client")
+				} else {
+					recRound.Eval(false, 0, nil, "no-path")
+				}
 				continue
 			}
 			want := min(m, len(offered))
